@@ -1,5 +1,6 @@
 import Uflow.Model.HalfConn
 import Uflow.Lemmas.PRecvLoops
+import Uflow.Lemmas.PSendHist
 
 /-!
 C01Hc, part 1: a pair of half connections joined by an adversarial, non-forging frame network.
@@ -16,7 +17,9 @@ dispatched exactly as `handle_frame` of the endpoints does: data → `handleData
 bytes) does not reach the half connection.
 
 All ghost fields are write-only records of what the model functions were called with / returned;
-they never influence `A`, `B` or the wires.
+they never influence `A`, `B` or the wires. `em` replays the `PSend.emit` calls of a `flush` to recover
+the send modes (`replayEmit`); `syncs` records the sync frames that carry a packet id and were emitted
+while the ghost guard `SyncOkP` held (the `sync` step of `Sys`).
 -/
 
 namespace Uflow.HcSys
@@ -42,6 +45,13 @@ def dispatch (s : State F) (bytes : List Nat) : R (State F) :=
   | some (.ack fb pb acks) => handleAckFrame s fb pb acks
   | _ => .ok s
 
+/-- The frame id `dispatch s bytes` marks seen in the frame acknowledgement queue: that of a data
+frame whose frame id passes the frame window test of `handleDataFrame`. -/
+def accBy (s : State F) (bytes : List Nat) : List Nat :=
+  match decode bytes with
+  | some (.data id _ _) => if s.aq.contains id then [id] else []
+  | _ => []
+
 /-- The datagrams `dispatch s bytes` hands to `PRecv.handleDatagram`: those of a data frame whose
 frame id passes the frame window test of `handleDataFrame`. -/
 def fedBy (s : State F) (bytes : List Nat) : List Datagram :=
@@ -55,6 +65,24 @@ def ackBy (bytes : List Nat) : List Nat :=
   match decode bytes with
   | some (.ack _ pb _) => [pb]
   | _ => []
+
+/-- Ghost replay of the `PSend.emit` calls of a `flush` that moved `k` packets into the send window:
+the history records (`PSend.mkEmitted`: the packet with the send mode of the queue entry it came
+from) of the first `k` packets a chain of calls `PSend.emit · f` returns from `ps` on
+(`HcSys.replay_emits`: for the chain of `flush_spec` these are all of them). -/
+def replayEmit : Nat → PSend.State → Nat → List Emitted
+  | 0, _, _ => []
+  | k+1, ps, f =>
+    match emit ps f with
+    | .ok (ps', some (p, _)) => mkEmitted ps f p :: replayEmit k ps' f
+    | _ => []
+
+/-- The entries `(n, next_packet_id)` for the sync frames among `frames` that carry a packet id. -/
+def syncIds (n : Nat) (frames : List (List Nat)) : List (Nat × Nat) :=
+  frames.filterMap fun b =>
+    match decode b with
+    | some (.sync _ (some np)) => some (n, np)
+    | _ => none
 
 structure HcPair (F : Type) where
   A : State F
@@ -79,6 +107,34 @@ structure HcPair (F : Type) where
   bases : List (Nat × Nat)
   /-- ghost: the payloads returned by the `B.receive` calls, concatenated -/
   outs : List (List Nat)
+  /-- ghost: the packets `A`'s `PSend.emit` returned with their send modes (`PSend.mkEmitted`), in
+  emission order; runs parallel to `pend` -/
+  em : List Emitted
+  /-- ghost: `(number of packets emitted so far, next_packet_id)` for every sync frame carrying a
+  packet id that `A.flush` emitted while `SyncOkP` held (the `syncs` list of `Sys`) -/
+  syncs : List (Nat × Nat)
+  /-- ghost: for every frame of `wireAB`, the number of packets `A` had emitted when the `flush` that
+  emitted the frame returned; runs parallel to `wireAB` -/
+  wireT : List Nat
+  /-- ghost: the frame ids of the data frames `B.handleDataFrame` accepted (passed the frame window
+  test of `B`'s frame acknowledgement queue) -/
+  accIds : List Nat
+
+/-- The emitted packet `x` has been completely received by `B`, as far as `B`'s packet receiver can
+tell (`Sys.Recvd` without the log): the receive window base has passed it, or it lies in the receive
+window and its slot has the entry flag. -/
+def RecvdP (h : HcPair F) (x : Emitted) : Prop :=
+  x.uid < h.advB ∨
+  (x.uid < h.advB + h.B.pr.windowSize ∧
+    (PRecv.getSlot h.B.pr (PRecv.widx h.B.pr x.sequenceId)).entryFlag = true)
+
+instance (h : HcPair F) (x : Emitted) : Decidable (RecvdP h x) := by unfold RecvdP; infer_instance
+
+/-- The guard `Sys.SyncOk` of the `sync` step of `Sys`, on the pair: every Reliable packet `A` has
+emitted so far has been completely received by `B`. -/
+def SyncOkP (h : HcPair F) : Prop := ∀ x ∈ h.em, x.mode = .reliable → RecvdP h x
+
+instance (h : HcPair F) : Decidable (SyncOkP h) := by unfold SyncOkP; infer_instance
 
 inductive POp where
   /-- application: `A.send(data, chan, mode)`; refused (no-op) if `data.len() > MAX_PACKET_SIZE`, the
@@ -105,7 +161,11 @@ def stepP (ops : FloatOps F) (h : HcPair F) : POp → R (HcPair F)
     else .ok h
   | .flushA =>
     bindR (flush h.A) fun r =>
-      .ok { h with A := r.1, wireAB := h.wireAB ++ r.2, pend := h.pend ++ newPackets h.A.ps r.1.ps }
+      let h1 : HcPair F :=
+        { h with A := r.1, wireAB := h.wireAB ++ r.2, pend := h.pend ++ newPackets h.A.ps r.1.ps,
+                 em := h.em ++ replayEmit (r.1.ps.win.length - h.A.ps.win.length) h.A.ps h.A.flushId,
+                 wireT := h.wireT ++ List.replicate r.2.length (h.pend ++ newPackets h.A.ps r.1.ps).length }
+      .ok { h1 with syncs := h.syncs ++ (if SyncOkP h1 then syncIds h1.pend.length r.2 else []) }
   | .stepA now => bindR (step ops h.A now) fun a => .ok { h with A := a }
   | .deliverAB k =>
     match h.wireAB[k]? with
@@ -113,6 +173,7 @@ def stepP (ops : FloatOps F) (h : HcPair F) : POp → R (HcPair F)
     | some bytes =>
       bindR (dispatch h.B (bytes.take MAX_FRAME_SIZE)) fun b =>
         .ok { h with B := b, fed := h.fed ++ fedBy h.B (bytes.take MAX_FRAME_SIZE),
+                     accIds := h.accIds ++ accBy h.B (bytes.take MAX_FRAME_SIZE),
                      advB := h.advB + pidSub b.pr.baseId h.B.pr.baseId,
                      bases := h.bases ++ [(h.advB + pidSub b.pr.baseId h.B.pr.baseId, b.pr.baseId)] }
   | .recvB =>
@@ -136,7 +197,8 @@ def runP (ops : FloatOps F) (h : HcPair F) : List POp → R (HcPair F)
 /-- Two fresh half connections (`HalfConnection::new`) and empty wires. -/
 def initP (ops : FloatOps F) (cA cB : Config) (nowA nowB : Nat) (rngA rngB : Rng) : HcPair F :=
   { A := init ops cA nowA rngA, B := init ops cB nowB rngB, wireAB := [], wireBA := [], sent := [],
-    pend := [], fed := [], acks := [], advB := 0, bases := [(0, cB.rxPacketBaseId)], outs := [] }
+    pend := [], fed := [], acks := [], advB := 0, bases := [(0, cB.rxPacketBaseId)], outs := [],
+    em := [], syncs := [], wireT := [], accIds := [] }
 
 /-! ### genuineness -/
 
@@ -161,16 +223,24 @@ packets that have left the send window) is less than `2^20 - w` ids beyond `a`. 
 def FreshAck (h : HcPair F) (pb : Nat) : Prop :=
   ∃ a, (a, pb) ∈ h.bases ∧ (h.pend.length - h.A.ps.win.length) + h.A.ps.windowSize < a + 2^20
 
+/-- The `SyncFresh` guard of `Sys` for a packet id `id` carried by a sync frame about to be handed to
+`B`: `id` is the `next_packet_id` of a sync frame `A.flush` emitted while `SyncOkP` held, when `n`
+packets had been emitted, and `B`'s receive window base is less than `2^20 - W` ids beyond `n`. -/
+def FreshSync (h : HcPair F) (id : Nat) : Prop :=
+  ∃ n, (n, id) ∈ h.syncs ∧ h.advB + h.B.pr.windowSize < n + 2^20
+
 /-- The side condition of one step, for `C01_hc_refines_sys`:
 * a data frame that passes `B`'s frame window test carries only `FreshDg` datagrams;
 * a sync frame delivered to `B` carries no packet id, or one on which `PRecv.resynchronize` does
-  nothing in `B`'s current state (`Sys` has no `resynchronize` step);
+  nothing in `B`'s current state, or a `FreshSync` one (emitted while every Reliable packet emitted so
+  far had been completely received, `SyncOkP`, and not older than `2^20 - W` ids);
 * an ack frame delivered to `A` carries a `FreshAck` base id. -/
 def OpOk (h : HcPair F) : POp → Prop
   | .deliverAB k => ∀ bytes, h.wireAB[k]? = some bytes →
       (∀ id nonce dgs, decode bytes = some (.data id nonce dgs) → h.B.aq.contains id = true →
         ∀ d ∈ dgs, FreshDg h d) ∧
-      (∀ nf id, decode bytes = some (.sync nf (some id)) → PRecv.resynchronize h.B.pr id = .ok h.B.pr)
+      (∀ nf id, decode bytes = some (.sync nf (some id)) →
+        PRecv.resynchronize h.B.pr id = .ok h.B.pr ∨ FreshSync h id)
   | .deliverBA k => ∀ bytes, h.wireBA[k]? = some bytes →
       ∀ fb pb acks, decode bytes = some (.ack fb pb acks) → FreshAck h pb
   | _ => True
